@@ -839,6 +839,21 @@ fn plan_path(path_len: u8, loss: u64, faults: u8) -> impl FnMut(&View<'_>, &mut 
         } else if faults >= 2 && kind == 1 && rng.chance(1, 4) {
             readable = *rng.pick(&[Poll::Yes, Poll::Fails]);
             if rng.chance(1, 2) { dgram = Dgram::ReadFails; }
+        } else if faults >= 1 && kind == 3 && cfg.proto != 'i' && !v.outstanding.is_empty() {
+            // somebody else's ping answer on the raw ICMP socket of a UDP / TCP trace, with an identifier the
+            // tracer would accept (0 or its own) and the sequence of a probe that is still awaited: not an
+            // answer to any probe of this trace
+            let (p, _) = rng.pick(v.outstanding);
+            let id = if rng.chance(1, 2) { 0 } else { cfg.trace_id };
+            let w = cfg.ccfg().wire();
+            let mut icmp = vec![ty_er(w.v6), 0, rng.next() as u8, rng.next() as u8];
+            icmp.extend(id.to_be_bytes());
+            icmp.extend(p.sequence.0.to_be_bytes());
+            let pad = rng.below(24) as usize;
+            icmp.extend(rng.bytes(pad));
+            let from = crate::wire_gen::responder(cfg.v6(), rng);
+            readable = Poll::Yes;
+            dgram = Dgram::Data(Some(from), deliver(&w, &icmp, from, rng));
         } else if faults >= 1 && kind == 2 && !v.previous.is_empty() {
             // a late answer to a probe of the round published last
             let (p, s) = rng.pick(v.previous);
